@@ -1015,5 +1015,192 @@ pub proof fn lemma_action_other_roundtrip(d: Dictionary, st: Store)
     assert(deref1(Primitive::Dictionary(d), st) == Ok::<Primitive, PdfError>(Primitive::Dictionary(d)));
 }
 
+// =====================================================================================================================
+// NumberTree<T>  (ISO 32000-1 7.9.7 Table 37: /Kids array of references (intermediate), /Nums [key1 value1 key2 value2 ...]
+//                 (leaf), /Limits [least greatest])
+// =====================================================================================================================
+//@@ struct NumberTree
+//@@ enum NumberTreeNode
+pub enum NtNode<T> { Leaf(Seq<(i32, T)>), Intermediate(Seq<PlainRef>) }
+pub struct NtModel<T> { pub limits: Option<(i32, i32)>, pub node: NtNode<T> }
+pub open spec fn nt_view<T>(t: NumberTree<T>) -> NtModel<T> {
+    NtModel { limits: t.limits, node: match t.node {
+        NumberTreeNode::Leaf(items) => NtNode::Leaf(items@),
+        NumberTreeNode::Intermediate(kids) => NtNode::Intermediate(ref_ids(kids@)) } }
+}
+pub open spec fn limits_reads(m: DMap, st: Store) -> Result<Option<(i32, i32)>> {
+    match dget(m, "Limits"@) {
+        None => Ok(None),
+        Some(l) => match deref1(l, st) {
+            Err(e) => Err(e),
+            Ok(Primitive::Array(v)) => if v@.len() != 2 { Err(PdfError::Other) } else {
+                match int_of(v@[0]) { Err(e) => Err(PdfError::Try { source: Box::new(e) }), Ok(a) =>
+                match int_of(v@[1]) { Err(e) => Err(PdfError::Try { source: Box::new(e) }), Ok(b) => Ok(Some((a, b))) } } },
+            Ok(q) => wrap(unexpected::<Option<(i32, i32)>>("Array", q)),
+        }
+    }
+}
+// every kid is an indirect reference (the first that is not: its error)
+pub open spec fn refs_read(v: Seq<Primitive>, n: int) -> Result<Seq<PlainRef>>
+    decreases n
+{
+    if n <= 0 { Ok(Seq::<PlainRef>::empty()) } else {
+        match refs_read(v, n - 1) { Err(e) => Err(e), Ok(s) => match v[n - 1] { Primitive::Reference(id) => Ok(s.push(id)), q => unexpected("Reference", q) } }
+    }
+}
+// key_i value_i pairs in order: pair i is (v[2i], v[2i+1]); a trailing odd element is ignored
+pub open spec fn pairs_read<T: Object>(v: Seq<Primitive>, n: int, st: Store) -> Result<Seq<(i32, T)>>
+    decreases n
+{
+    if n <= 0 { Ok(Seq::<(i32, T)>::empty()) } else {
+        match pairs_read::<T>(v, n - 1, st) { Err(e) => Err(e), Ok(s) =>
+            match int_of(v[2 * (n - 1)]) { Err(e) => Err(PdfError::Try { source: Box::new(e) }), Ok(idx) =>
+            match T::reads(v[2 * (n - 1) + 1], st) { Err(e) => Err(PdfError::Try { source: Box::new(e) }), Ok(val) => Ok(s.push((idx, val))) } } }
+    }
+}
+pub open spec fn nt_of_dict<T: Object>(m: DMap, st: Store) -> Result<NtModel<T>> {
+    match limits_reads(m, st) {
+        Err(e) => Err(e),
+        Ok(lim) => match dget(m, "Kids"@) {
+            Some(k) => match deref1(k, st) {
+                Err(e) => Err(e),
+                Ok(Primitive::Array(v)) => match refs_read(v@, v@.len() as int) { Err(e) => Err(PdfError::Try { source: Box::new(e) }), Ok(ids) => Ok(NtModel { limits: lim, node: NtNode::Intermediate(ids) }) },
+                Ok(q) => unexpected("Array", q),
+            },
+            None => match dget(m, "Nums"@) {
+                Some(Primitive::Array(v)) => match pairs_read::<T>(v@, v@.len() as int / 2, st) { Err(e) => Err(e), Ok(items) => Ok(NtModel { limits: lim, node: NtNode::Leaf(items) }) },
+                Some(q) => unexpected("Array", q),
+                None => Ok(NtModel { limits: lim, node: NtNode::Intermediate(Seq::<PlainRef>::empty()) }),
+            }
+        }
+    }
+}
+pub open spec fn nt_reads<T: Object>(p: Primitive, st: Store) -> Result<NtModel<T>> {
+    then(deref1(p, st), |q: Primitive| match q { Primitive::Dictionary(d) => nt_of_dict::<T>(d@, st), _ => unexpected("Dictionary", q) })
+}
+pub open spec fn nt_agrees<T>(r: Result<NumberTree<T>>, m: Result<NtModel<T>>) -> bool {
+    match (r, m) { (Ok(t), Ok(x)) => nt_view(t) == x, (Err(a), Err(b)) => a == b, _ => false }
+}
+pub proof fn lemma_nt_keys()
+    ensures "Limits"@ != "Kids"@, "Limits"@ != "Nums"@, "Kids"@ != "Nums"@
+{
+    reveal_strlit("Limits"); reveal_strlit("Kids"); reveal_strlit("Nums");
+    assert("Limits"@.len() != "Kids"@.len());
+    assert("Limits"@.len() != "Nums"@.len());
+    assert("Kids"@[0] != "Nums"@[0]);
+}
+pub proof fn lemma_pairs_err_sticks<T: Object>(v: Seq<Primitive>, i: int, n: int, st: Store)
+    ensures (0 <= i <= n && pairs_read::<T>(v, i, st) is Err) ==> pairs_read::<T>(v, n, st) == pairs_read::<T>(v, i, st)
+    decreases n - i
+{
+    if 0 <= i < n && pairs_read::<T>(v, i, st) is Err { lemma_pairs_err_sticks::<T>(v, i, n - 1, st); }
+}
+// R7: `ARR.iter().map(|kid| Ref::<NumberTree<T>>::from_primitive(kid.clone(), resolve)).collect::<Result<Vec<_>>>()`
+// Ref::from_primitive (object/mod.rs:201) is `Ok(Ref::new(p.into_reference()?))`; collect stops at the first error
+#[verifier::external_body]
+fn hoist_read_refs<T, R: Resolve>(arr: &Vec<Primitive>, resolve: &R) -> (r: Result<Vec<Ref<T>>>)
+    ensures (match (r, refs_read(arr@, arr@.len() as int)) { (Ok(k), Ok(ids)) => ref_ids(k@) == ids, (Err(a), Err(b)) => a == b, _ => false })
+{ unimplemented!() }
+// R7: `kids.iter().map(|r| r.get_inner().into()).collect_vec()`
+#[verifier::external_body]
+fn hoist_refs_to_prims<T>(kids: &Vec<Ref<T>>) -> (r: Vec<Primitive>)
+    ensures r@ == refs_prims(ref_ids(kids@))
+{ unimplemented!() }
+// writer model
+pub open spec fn refs_prims(ids: Seq<PlainRef>) -> Seq<Primitive> { Seq::new(ids.len(), |i: int| Primitive::Reference(ids[i])) }
+pub open spec fn nums_array<T: ObjectWrite>(items: Seq<(i32, T)>, n: int) -> Seq<Primitive>
+    decreases n
+{
+    if n <= 0 { Seq::<Primitive>::empty() } else { nums_array(items, n - 1).push(Primitive::Integer(items[n - 1].0)).push(items[n - 1].1.writes()) }
+}
+pub open spec fn is_array_of(p: Primitive, s: Seq<Primitive>) -> bool { p matches Primitive::Array(v) && v@ == s }
+pub open spec fn nt_writes<T: ObjectWrite>(x: NtModel<T>, p: Primitive) -> bool {
+    p matches Primitive::Dictionary(d)
+    && d@.dom() =~= (if x.limits is Some { set!["Limits"@] } else { Set::<Seq<char>>::empty() }).insert(if x.node is Leaf { "Nums"@ } else { "Kids"@ })
+    && (x.limits matches Some(l) ==> is_array_of(d@["Limits"@], seq![Primitive::Integer(l.0), Primitive::Integer(l.1)]))
+    && (x.node matches NtNode::Leaf(items) ==> is_array_of(d@["Nums"@], nums_array(items, items.len() as int)))
+    && (x.node matches NtNode::Intermediate(ids) ==> is_array_of(d@["Kids"@], refs_prims(ids)))
+}
+//@@ numbertree_from_primitive
+//@@ numbertree_to_primitive
+// reading the /Nums array the writer made gives the same keys in the same order, each value as its own codec reads it back
+pub open spec fn rt_strong<T: Object + ObjectWrite>(t: T, st: Store) -> bool { T::reads(t.writes(), st) == Ok::<T, PdfError>(t) }
+pub proof fn lemma_nums_roundtrip<T: Object + ObjectWrite>(items: Seq<(i32, T)>, n: int, st: Store)
+    requires 0 <= n <= items.len(), forall|i: int| 0 <= i < items.len() ==> rt_strong((#[trigger] items[i]).1, st)
+    ensures nums_array(items, n).len() == 2 * n, pairs_read::<T>(nums_array(items, n), n, st) == Ok::<Seq<(i32, T)>, PdfError>(items.subrange(0, n))
+    decreases n
+{
+    if n > 0 {
+        lemma_nums_roundtrip(items, n - 1, st);
+        let prev = nums_array(items, n - 1);
+        let cur = nums_array(items, n);
+        lemma_pairs_prefix::<T>(cur, prev, n - 1, st);
+        assert(cur[2 * (n - 1)] == Primitive::Integer(items[n - 1].0));
+        assert(cur[2 * (n - 1) + 1] == items[n - 1].1.writes());
+        assert(rt_strong(items[n - 1].1, st));
+        assert(items.subrange(0, n - 1).push(items[n - 1]) =~= items.subrange(0, n));
+    } else {
+        assert(items.subrange(0, 0) =~= Seq::<(i32, T)>::empty());
+    }
+}
+pub proof fn lemma_kids_roundtrip(ids: Seq<PlainRef>, n: int)
+    requires 0 <= n <= ids.len()
+    ensures refs_read(refs_prims(ids), n) == Ok::<Seq<PlainRef>, PdfError>(ids.subrange(0, n))
+    decreases n
+{
+    if n > 0 {
+        lemma_kids_roundtrip(ids, n - 1);
+        assert(ids.subrange(0, n - 1).push(ids[n - 1]) =~= ids.subrange(0, n));
+    } else {
+        assert(ids.subrange(0, 0) =~= Seq::<PlainRef>::empty());
+    }
+}
+// whole value: what the writer emitted for x reads back as x (every leaf value round-tripping through its own codec)
+pub proof fn lemma_numbertree_roundtrip<T: Object + ObjectWrite>(x: NtModel<T>, p: Primitive, st: Store)
+    requires nt_writes(x, p), x.node matches NtNode::Leaf(items) ==> forall|i: int| 0 <= i < items.len() ==> rt_strong((#[trigger] items[i]).1, st)
+    ensures nt_reads::<T>(p, st) == Ok::<NtModel<T>, PdfError>(x)
+{
+    lemma_nt_keys();
+    let d = p->Dictionary_0;
+    assert(deref1(p, st) == Ok::<Primitive, PdfError>(p));
+    match x.limits {
+        Some(l) => {
+            let lp = d@["Limits"@];
+            assert(dget(d@, "Limits"@) == Some(lp));
+            assert(deref1(lp, st) == Ok::<Primitive, PdfError>(lp));
+            let v = lp->Array_0;
+            assert(int_of(v@[0]) == Ok::<i32, PdfError>(l.0) && int_of(v@[1]) == Ok::<i32, PdfError>(l.1));
+            assert(limits_reads(d@, st) == Ok::<Option<(i32, i32)>, PdfError>(Some(l)));
+        }
+        None => { assert(dget(d@, "Limits"@) is None); }
+    }
+    match x.node {
+        NtNode::Leaf(items) => {
+            assert(dget(d@, "Kids"@) is None);
+            let np = d@["Nums"@];
+            assert(dget(d@, "Nums"@) == Some(np));
+            let n = items.len() as int;
+            lemma_nums_roundtrip(items, n, st);
+            assert(items.subrange(0, n) =~= items);
+            assert((2 * n) / 2 == n);
+        }
+        NtNode::Intermediate(ids) => {
+            let kp = d@["Kids"@];
+            assert(dget(d@, "Kids"@) == Some(kp));
+            assert(deref1(kp, st) == Ok::<Primitive, PdfError>(kp));
+            lemma_kids_roundtrip(ids, ids.len() as int);
+            assert(ids.subrange(0, ids.len() as int) =~= ids);
+            assert(refs_prims(ids).len() == ids.len());
+        }
+    }
+}
+pub proof fn lemma_pairs_prefix<T: Object>(v: Seq<Primitive>, w: Seq<Primitive>, k: int, st: Store)
+    requires 0 <= k, 2 * k <= v.len(), 2 * k <= w.len(), forall|i: int| 0 <= i < 2 * k ==> v[i] == w[i]
+    ensures pairs_read::<T>(v, k, st) == pairs_read::<T>(w, k, st)
+    decreases k
+{
+    if k > 0 { lemma_pairs_prefix::<T>(v, w, k - 1, st); }
+}
+
 }
 fn main(){}
